@@ -29,16 +29,30 @@ def mtrl(m):
         flags |= 0x4
         if table == "dawntrail":
             flags |= 0x53 << 4
+        elif m.get("explicit_dims"):
+            flags |= 0x42 << 4          # a legacy table that spells out its 4 x 16 dimensions
         for row in m["rows"]:
             body += struct.pack("<%dH" % len(row), *row)
-    if m.get("dye") is not None:
+    if m.get("dye") is not None and not (table == "legacy" and m.get("explicit_dims")):
         flags |= 0x8
         body += b"".join(struct.pack("<H" if table != "dawntrail" else "<I", d) for d in m["dye"])
+    # constant records in table order; their value slices are laid out in "const_order" (default: table order), with
+    # optional gap words between slices, and a record may share the slice of another ("const_share": {i: j})
+    cl = m.get("constants", [])
+    order = m.get("const_order") or list(range(len(cl)))
+    share = m.get("const_share") or {}
+    gaps = m.get("const_gaps") or {}
     values = b""
+    off = {}
+    for i in order:
+        if i in share:
+            continue
+        values += b"".join(struct.pack("<I", g) for g in gaps.get(i, []))
+        off[i] = len(values)
+        values += b"".join(struct.pack("<I", v) for v in cl[i][1])
     consts = b""
-    for cid, vals in m.get("constants", []):
-        consts += struct.pack("<IHH", cid, len(values), 4 * len(vals))
-        values += b"".join(struct.pack("<I", v) for v in vals)
+    for i, (cid, vals) in enumerate(cl):
+        consts += struct.pack("<IHH", cid, off[share[i]] if i in share else off[i], 4 * len(vals))
     hdr2 = struct.pack("<HHHHI", len(values), len(m.get("keys", [])), len(m.get("constants", [])), len(m.get("samplers", [])), m.get("flags", 0))
     keys = b"".join(struct.pack("<II", c, v) for c, v in m.get("keys", []))
     samplers = b"".join(struct.pack("<IIBBBB", SAMPLER_IDS[u], fl, ti, 0, 0, 0) for u, fl, ti in m.get("samplers", []))
